@@ -51,3 +51,4 @@ func vfTimeOrZero(name string) time.Time
 func vfPreempts() int
 func vfThreadsBlocked() int
 func vfThreadsLive() int
+func vfQuiesce()
